@@ -31,6 +31,19 @@ pub use crate::serializer_options::SerializerOptions;
 use serde::de::DeserializeOwned;
 use std::io::Read;
 
+/// True for a root scalar that makes its document a null document, which the multi-document
+/// functions and iterators skip: plain `~`, `null` or nothing at all. A scalar explicitly tagged
+/// `!!str` is a string whatever it looks like (`from_str::<String>("!!str null")` is `"null"`),
+/// so its document is not skipped.
+#[inline]
+fn is_null_document(
+    value: &str,
+    style: &saphyr_parser::ScalarStyle,
+    tag: &crate::tags::SfTag,
+) -> bool {
+    scalar_is_nullish(value, style) && tag != &crate::tags::SfTag::String
+}
+
 #[cfg(feature = "garde")]
 use garde::Validate;
 #[cfg(feature = "validator")]
@@ -576,8 +589,11 @@ where
         match src.peek()? {
             // Skip documents that are explicit null-like scalars ("", "~", or "null").
             Some(Ev::Scalar {
-                value: s, style, ..
-            }) if scalar_is_nullish(s, style) => {
+                value: s,
+                style,
+                tag,
+                ..
+            }) if is_null_document(s, style, tag) => {
                 let _ = src.next()?; // consume the null scalar document
                 continue;
             }
@@ -808,9 +824,9 @@ where
             }
             loop {
                 match self.src.peek() {
-                    Ok(Some(Ev::Scalar { value, style, .. }))
-                        if scalar_is_nullish(value, style) =>
-                    {
+                    Ok(Some(Ev::Scalar {
+                        value, style, tag, ..
+                    })) if is_null_document(value, style, tag) => {
                         // Consuming the null-like document may surface a deferred reader error;
                         // it must not be dropped.
                         if let Err(e) = self.src.next() {
@@ -966,8 +982,11 @@ where
         match src.peek()? {
             // Skip documents that are explicit null-like scalars ("", "~", or "null").
             Some(Ev::Scalar {
-                value: s, style, ..
-            }) if scalar_is_nullish(s, style) => {
+                value: s,
+                style,
+                tag,
+                ..
+            }) if is_null_document(s, style, tag) => {
                 let _ = src.next()?; // consume the null scalar document
                 continue;
             }
@@ -1188,9 +1207,9 @@ where
             }
             loop {
                 match self.src.peek() {
-                    Ok(Some(Ev::Scalar { value, style, .. }))
-                        if scalar_is_nullish(value, style) =>
-                    {
+                    Ok(Some(Ev::Scalar {
+                        value, style, tag, ..
+                    })) if is_null_document(value, style, tag) => {
                         // Consuming the null-like document may surface a deferred reader error;
                         // it must not be dropped.
                         if let Err(e) = self.src.next() {
@@ -1376,8 +1395,11 @@ pub fn from_multiple_with_options<T: DeserializeOwned>(
         match src.peek()? {
             // Skip documents that are explicit null-like scalars ("", "~", or "null").
             Some(Ev::Scalar {
-                value: s, style, ..
-            }) if scalar_is_nullish(s, style) => {
+                value: s,
+                style,
+                tag,
+                ..
+            }) if is_null_document(s, style, tag) => {
                 let _ = src.next()?; // consume the null scalar document
                 // Do not push anything for this document; move to the next one.
                 continue;
@@ -1936,9 +1958,9 @@ where
             }
             loop {
                 match self.src.peek() {
-                    Ok(Some(Ev::Scalar { value, style, .. }))
-                        if scalar_is_nullish(value, style) =>
-                    {
+                    Ok(Some(Ev::Scalar {
+                        value, style, tag, ..
+                    })) if is_null_document(value, style, tag) => {
                         // Consuming the null-like document may surface a deferred reader error;
                         // it must not be dropped.
                         if let Err(e) = self.src.next() {
